@@ -796,3 +796,114 @@ def c15_group_failure(rng, tier):
         if f < gm - 1e-10 or f > gm + np.log(N) / rho + 1e-10:
             out.append(_fail("aggregated failure is outside [max, max + ln(N)/rho] of the group's own stress ratios", f, [gm, gm + np.log(N) / rho], **case))
     return out
+
+
+# ---------------------------------------------------------------------------------------
+# C01 for every component of the assembled groups (also those without a model): reported partials vs OpenMDAO's own
+# finite-difference / complex-step check at a converged, physically meaningful point
+# ---------------------------------------------------------------------------------------
+_CP_SKIP = ()     # components excluded from the group-level partial check (none)
+
+
+def _check_partials_two_steps(prob):
+    with quiet():
+        d1 = prob.check_partials(out_stream=None, compact_print=True, method="cs", step=1e-30)
+        d2 = prob.check_partials(out_stream=None, compact_print=True, method="cs", step=1e-20)
+    return d1, d2
+
+
+def _approximated(prob, comp, key):
+    """True when the component declares this sub-Jacobian as an OpenMDAO fd/cs approximation (not its own formula)"""
+    c = prob.model._get_subsystem(comp)
+    if c is None:
+        return True
+    meta = c._subjacs_info.get((comp + "." + key[0], comp + "." + key[1]))
+    return meta is None or meta.get("method") in ("fd", "cs")
+
+
+@oracle("C01", "group_check_partials")
+def c01_group_partials(rng, tier):
+    """an assembled model (aero point with random options, aerostructural point with tube or wingbox, structure alone with fuel and
+    point masses) is converged at a random design point; the partials every one of its components reports there are compared
+    with OpenMDAO's own check (complex step where the component asks for it, central differences with two step sizes
+    otherwise; entries on which the two step sizes disagree are skipped)."""
+    from . import oracles as _o
+    kind = ["aerostruct", "aero", "struct"][_o.CURRENT_K % 3]
+    pipelines.FORCE_COMPLEX = True
+    try:
+        return _c01_group_partials(rng, tier, kind)
+    finally:
+        pipelines.FORCE_COMPLEX = False
+
+
+def _c01_group_partials(rng, tier, kind):
+    if kind == "aerostruct":
+        s = _as_surface(rng, tier, fem="random", struct_weight_relief=bool(rng.integers(2)), with_wave=bool(rng.integers(2)),
+                        chord_cp=np.array([1.0, 1.1]))
+        prob = pipelines.build_aerostruct([s], [_as_flow(rng, Mach_number=float(rng.uniform(0.3, 0.85)))])
+        case = dict(model="AerostructPoint", fem_model_type=s["fem_model_type"], symmetry=s["symmetry"], k_lam=s["k_lam"], S_ref_type=s["S_ref_type"])
+    elif kind == "aero":
+        from .oracles_aero import _aero_config, _flow
+        surfaces = _aero_config(rng, tier, ns=int(rng.choice([1, 2])))
+        for x in surfaces:
+            x["with_viscous"] = bool(rng.integers(2)); x["with_wave"] = bool(rng.integers(2))
+            x["k_lam"] = float(rng.choice([0.05, 0.0, 1.0]))
+        comp = bool(rng.integers(2)); rot = bool(rng.integers(2))
+        fl = _flow(rng, Mach_number=float(rng.uniform(0.3, 0.85)))
+        fl["omega"] = rng.normal(size=3) * 0.2
+        prob = pipelines.build_aero_point(surfaces, fl, compressible=comp, rotational=rot)
+        case = dict(model="AeroPoint", compressible=comp, rotational=rot, shapes=[list(x["mesh"].shape) for x in surfaces],
+                    symmetry=[x["symmetry"] for x in surfaces])
+    else:
+        fem = str(rng.choice(["tube", "wingbox"]))
+        s = _as_surface(rng, tier, fem=fem, struct_weight_relief=bool(rng.integers(2)))
+        if rng.integers(2):
+            s["n_point_masses"] = 1
+        loads = rng.normal(size=(s["mesh"].shape[1], 6)) * 1e4
+        prob = pipelines.build_struct_alone(s, loads)
+        if "n_point_masses" in s:
+            prob.set_val("wing.point_masses", np.array([[float(rng.uniform(500, 3000))]]))
+            prob.set_val("wing.point_mass_locations", np.array([[1.0, -float(rng.uniform(0.5, 3.0)), -0.3]]))
+            prob.set_val("wing.engine_thrusts", np.array([[float(rng.uniform(5e3, 3e4))]]))
+        case = dict(model="SpatialBeamAlone", fem_model_type=fem, symmetry=s["symmetry"], weight_relief=s["struct_weight_relief"],
+                    point_masses="n_point_masses" in s)
+    with quiet():
+        prob.run_model()
+    d1, d2 = _check_partials_two_steps(prob)
+    out = []
+    for comp, keys in d1.items():
+        if any(sk in comp for sk in _CP_SKIP):
+            continue
+        for key, v in keys.items():
+            if "J_fwd" not in v or "J_fd" not in v or "J_fd" not in d2.get(comp, {}).get(key, {}) or _approximated(prob, comp, key):
+                continue
+            Ja = np.atleast_2d(np.array(v["J_fwd"], dtype=float)); J1 = np.atleast_2d(np.array(v["J_fd"], dtype=float))
+            J2 = np.atleast_2d(np.array(d2[comp][key]["J_fd"], dtype=float))
+            if Ja.shape != J1.shape:
+                continue
+            sc = max(float(np.max(np.abs(Ja))) if Ja.size else 0.0, float(np.max(np.abs(J1))) if J1.size else 0.0)
+            if sc == 0.0:
+                continue
+            # relative to the size of the whole sub-Jacobian: complex step through `norm`/`abs` of nearly real vectors is itself only
+            # accurate to about 1e-4 of a *small* entry (seen on Length and VLMGeometry, whose partials the model confirms to 1e-7)
+            try:
+                fmag = float(np.max(np.abs(np.array(prob.get_val(comp + "." + key[0])))))
+            except Exception:
+                fmag = 0.0
+            tol = (2e-5 * sc + 1e-12 * fmag) * np.ones_like(Ja)       # second term: round-off floor of a derivative that is really zero
+            unreliable = np.abs(J1 - J2) > 0.25 * tol
+            D = np.where(unreliable, 0.0, np.abs(Ja - J1))
+            if np.any(D > tol):
+                i, j = np.unravel_index(int(np.argmax(D / tol)), D.shape)
+                out.append(_fail("a component of the assembled model reports a partial derivative that differs from the finite-difference / "
+                                 "complex-step derivative of its own compute()",
+                                 "%s d %s / d %s entry (%d,%d): %.10g vs %.10g" % (comp, key[0], key[1], i, j, Ja[i, j], J1[i, j]),
+                                 "equal", component=comp, of=key[0], wrt=key[1], **case))
+            if "J_rev" in v:
+                Jr = np.atleast_2d(np.array(v["J_rev"], dtype=float))
+                if Jr.shape == Ja.shape and np.max(np.abs(Jr - Ja)) > 1e-9 * sc:
+                    out.append(_fail("forward and reverse matrix-free products of a component are not adjoint to each other",
+                                     "%s d %s / d %s" % (comp, key[0], key[1]), "J_rev = J_fwd", component=comp, **case))
+            if len(out) >= 5:
+                return out
+    return out
